@@ -1,5 +1,5 @@
 """vlib — shared machinery for /verif/bin/check: building, running, evidence, verdicts."""
-import os, sys, json, time, subprocess, tempfile, shutil, atexit, glob, fcntl, hashlib, re
+import os, sys, json, time, subprocess, tempfile, shutil, atexit, glob, fcntl, hashlib, re, importlib
 
 VERIF = os.path.dirname(os.path.dirname(os.path.abspath(__file__)))
 REPO = os.environ.get("VERIF_REPO", "/repo")
@@ -85,6 +85,17 @@ def regenerate(cdir, which=("tables",)):
             gen_lockcfg_write(cdir, text, side)
         except gen_lockcfg.TranslatorError as e:
             errs.append(("gen_lockcfg", str(e)))
+    for name in which:
+        if name in ("tables", "lockcfg"): continue
+        mod = importlib.import_module("gen_" + name)
+        try:
+            for fn, text in mod.generate_files(REPO).items():
+                pth = os.path.join(cdir, fn)
+                if not os.path.exists(pth) or open(pth).read() != text:
+                    open(pth, "w").write(text)
+        except Exception as e:
+            if e.__class__.__name__ != "TranslatorError": raise
+            errs.append(("gen_" + name, str(e)))
     return errs
 
 def gen_lockcfg_write(cdir, text, side):
@@ -113,13 +124,24 @@ def lock_diagnosis(cdir, kinds=("balance", "order", "guard"), threadsafe_only=Fa
         if "order" in kinds: out.append({"entry": "*", "what": "lock order cycle " + " -> ".join(cyc), "call_chain": []})
     return out, side
 
+def coq_project(cdir):
+    """(re)generate _CoqProject and Makefile from the .v files present (Extract*.v are compiled separately)"""
+    files = sorted(os.path.basename(f) for f in glob.glob(os.path.join(cdir, "*.v")) if not os.path.basename(f).startswith("Extract"))
+    text = "-Q . LB\n" + "\n".join(files) + "\n"
+    pp = os.path.join(cdir, "_CoqProject")
+    if not os.path.exists(pp) or open(pp).read() != text or not os.path.exists(os.path.join(cdir, "Makefile")):
+        open(pp, "w").write(text)
+        r = run(["coq_makefile", "-f", "_CoqProject", "-o", "Makefile"], cwd=cdir)
+        if r.returncode != 0:
+            return False, r.stdout + r.stderr
+    return True, ""
+
 def coq_make(cdir, targets, timeout=1500):
     """make the given .vo targets (and their deps). Returns (ok, log)."""
     with Lock(os.path.join(cdir, ".lock")):
-        if not os.path.exists(os.path.join(cdir, "Makefile")):
-            r = run(["coq_makefile", "-f", "_CoqProject", "-o", "Makefile"], cwd=cdir)
-            if r.returncode != 0:
-                return False, r.stdout + r.stderr
+        ok, log = coq_project(cdir)
+        if not ok:
+            return False, log
         r = run(["timeout", str(timeout), "make", "-k", "-j%d" % NCPU] + list(targets), cwd=cdir, timeout=timeout + 30)
         return r.returncode == 0, r.stdout + r.stderr
 
@@ -150,23 +172,30 @@ def grep_gate(cdir):
     return bad
 
 # ------------------------------------------------------------------ OCaml model driver
-def build_model_driver(cdir):
-    """extract (Extract.v) and build ocaml/model_driver in a temp dir; returns path"""
+def build_model_driver(cdir, name=""):
+    """extract (Extract<name>.v -> model<name>.ml) and build ocaml/driver<name>.ml in a temp dir; returns path.
+    name="" is the shared transmission-layer driver; per-property drivers use e.g. name="_C18"."""
     d = mktmp("vml")
+    ev = os.path.join(cdir, "Extract%s.v" % name)
     mods = []
-    for line in open(os.path.join(cdir, "Extract.v")):
+    for line in open(ev):
         m = re.match(r'From LB Require Import (.*)\.', line.strip())
         if m: mods += m.group(1).split()
     ok, log = coq_make(cdir, [x + ".vo" for x in mods])
     if not ok:
         raise ProofBroken("models", log[-3000:])
-    r = run(["timeout", "300", "coqc", "-Q", cdir, "LB", os.path.join(cdir, "Extract.v")], cwd=d, timeout=330)
+    r = run(["timeout", "600", "coqc", "-Q", cdir, "LB", ev], cwd=d, timeout=630)
     if r.returncode != 0:
-        raise ProofBroken("Extract.v", r.stdout + r.stderr)
-    shutil.copy(os.path.join(VERIF, "ocaml", "driver.ml"), d)
-    r = run(["ocamlfind", "ocamlopt", "-O3", "-w", "-a", "-package", "str", "-linkpkg", "model.mli", "model.ml", "driver.ml", "-o", "model_driver"], cwd=d, timeout=300)
+        raise ProofBroken("Extract%s.v" % name, r.stdout + r.stderr)
+    for junk in glob.glob(os.path.join(cdir, "Extract%s.vo*" % name)) + glob.glob(os.path.join(cdir, "Extract%s.glob" % name)) + glob.glob(os.path.join(cdir, ".Extract%s.aux" % name)):
+        try: os.remove(junk)
+        except OSError: pass
+    mlname = "model%s" % name.lower()
+    shutil.copy(os.path.join(VERIF, "ocaml", "driver%s.ml" % name), os.path.join(d, "driver.ml"))
+    base = ["ocamlfind", "ocamlopt", "-w", "-a", "-package", "str", "-linkpkg", mlname + ".mli", mlname + ".ml", "driver.ml", "-o", "model_driver"]
+    r = run(base[:2] + ["-O3"] + base[2:], cwd=d, timeout=600)
     if r.returncode != 0:
-        r = run(["ocamlfind", "ocamlopt", "-w", "-a", "-package", "str", "-linkpkg", "model.mli", "model.ml", "driver.ml", "-o", "model_driver"], cwd=d, timeout=300)
+        r = run(base, cwd=d, timeout=600)
         if r.returncode != 0:
             raise RuntimeError("model driver build failed:\n" + r.stdout + r.stderr)
     return os.path.join(d, "model_driver")
@@ -181,6 +210,15 @@ def pkg_cflags():
 def build_harness(san="asan", extra_defs=(), wrap=()):
     """compile /repo/src/*/*.c + harness/drv.c into a temp dir; returns path of the driver"""
     d = mktmp("vhar")
+    exts = sorted(glob.glob(os.path.join(VERIF, "harness", "ext_*.inc")))
+    with open(os.path.join(d, "ext_all.inc"), "w") as f:
+        for e in exts:
+            f.write('#include "%s"\n' % e)
+        f.write("static int ext_command(char *cmd, char **a, int na, uint8_t *bytes, size_t nbytes) {\n")
+        for e in exts:
+            tag = os.path.basename(e)[4:-4]
+            f.write("\tif (ext_cmd_%s(cmd, a, na, bytes, nbytes)) return 1;\n" % tag)
+        f.write("\t(void)cmd; (void)a; (void)na; (void)bytes; (void)nbytes; return 0;\n}\n")
     srcs = sorted(glob.glob(os.path.join(REPO, "src/*/*.c")))
     if not srcs:
         raise BuildBroken("no sources under %s/src" % REPO)
@@ -197,7 +235,7 @@ def build_harness(san="asan", extra_defs=(), wrap=()):
         objs.append(o)
         procs.append((s, subprocess.Popen(["clang"] + flags + ["-c", s, "-o", o], stdout=subprocess.PIPE, stderr=subprocess.STDOUT, text=True)))
     drv = os.path.join(d, "drv.o")
-    procs.append(("drv.c", subprocess.Popen(["clang"] + flags + ["-I", os.path.join(REPO, "include"), "-I", os.path.join(REPO, "src"), "-iquote", os.path.join(VERIF, "harness"),
+    procs.append(("drv.c", subprocess.Popen(["clang"] + flags + ["-I", os.path.join(REPO, "include"), "-I", os.path.join(REPO, "src"), "-iquote", d, "-iquote", os.path.join(VERIF, "harness"),
                   "-c", os.path.join(VERIF, "harness", "drv.c"), "-o", drv], stdout=subprocess.PIPE, stderr=subprocess.STDOUT, text=True)))
     for s, p in procs:
         out, _ = p.communicate()
